@@ -1,6 +1,6 @@
 -------------------------- MODULE Trace_TextProtocol --------------------------
 (* One event per created-or-rejected pattern, carrying the outcomes of its parses.   *)
-EXTENDS Integers, Sequences, TLC, Json, IOUtils, PatternScanFn
+EXTENDS Integers, Sequences, TLC, Json, IOUtils, PatternScanFn, PatternGrammar
 VARIABLES l
 Events == JsonDeserialize(IOEnv.TRACE_FILE)
 Rej(clause, k) == PrintT(<<"REJECT", clause, l, k>>)
@@ -10,6 +10,13 @@ Step(e) ==
      ELSE Rej("pattern_creation_succeeds_or_raises_invalid_pattern_error", 0)
   \* reference clause: the quoting layer of the grammar predicts rejection
   /\ IF e.created = "ok" /\ Scan(e.pattern) # "Ok" THEN PrintT(<<"DIVERGE", "quoting_error_predicted_by_scanner_but_pattern_accepted", l>>) ELSE TRUE
+  \* reference clauses: the field-level grammar (PatternGrammar.tla) predicts acceptance and rejection for the types it covers
+  \* (single letters that stand for the culture's own pattern texts are as good as those texts: not predicted)
+  /\ IF e.type \in GrammarTypes /\ Len(e.pattern) # 1 /\ e.created \in {"ok", "InvalidPatternError"}
+     THEN \E g \in {Grammar(e.type, e.pattern)} :
+          /\ (IF e.created = "ok" /\ g # "Ok" THEN PrintT(<<"DIVERGE", "grammar_rejects_but_pattern_accepted", l, g>>) ELSE TRUE)
+          /\ (IF e.created # "ok" /\ g = "Ok" THEN PrintT(<<"DIVERGE", "grammar_accepts_but_pattern_rejected", l>>) ELSE TRUE)
+     ELSE TRUE
   /\ \A k \in 1..Len(e.parses) :
        LET p == e.parses[k] IN
        IF p.out = "success" THEN (IF p.valid THEN TRUE ELSE Rej("parse_success_carries_a_valid_value", k))
